@@ -340,9 +340,10 @@ func TestC19(t *testing.T) {
 		auto := strings.HasSuffix(kind, ":auto")
 		retry := []time.Duration{0, -1, -5 * time.Second, 1500 * time.Millisecond, 0}[rng.IntN(5)]
 		withType := rng.IntN(3) == 0
+		rejected := kind != "none" && rng.IntN(4) == 0
 		workers := 1 + rng.IntN(4)
 		per := 1 + rng.IntN(4)
-		r.Begin(key, fmt.Sprintf("%s workers=%d per=%d retry=%d type=%v", kind, workers, per, retry, withType))
+		r.Begin(key, fmt.Sprintf("%s workers=%d per=%d retry=%d type=%v refused=%v", kind, workers, per, retry, withType, rejected))
 		var findings []string
 		func() {
 			defer func() {
@@ -371,6 +372,16 @@ func TestC19(t *testing.T) {
 				if !auto {
 					msg.ID = sse.ID("manual")
 				}
+				if rejected {
+					// a message the replayer refuses (an ID of its own with automatic IDs, none with
+					// manual ones): Publish returns that error, the message is delivered all the same,
+					// and it stays the caller's
+					if auto {
+						msg.ID = sse.ID("own-id")
+					} else {
+						msg.ID = sse.EventID{}
+					}
+				}
 				msg.Retry = retry
 				if withType {
 					msg.Type = sse.Type("ty")
@@ -382,15 +393,15 @@ func TestC19(t *testing.T) {
 					go func() {
 						defer wg.Done()
 						for k := 0; k < per; k++ {
-							if err := joe.Publish(msg, []string{"t"}); err != nil {
-								findings = append(findings, fmt.Sprintf("Publish failed: %v", err))
+							if err := joe.Publish(msg, []string{"t"}); (err != nil) != rejected {
+								findings = append(findings, fmt.Sprintf("Publish returned %v (message the replayer refuses: %v)", err, rejected))
 							}
 						}
 					}()
 				}
 				wg.Wait()
 				synctest.Wait()
-				if msgState(msg) != before || msg.ID.IsSet() == auto {
+				if msgState(msg) != before || (msg.ID.IsSet() == auto) != rejected {
 					findings = append(findings, fmt.Sprintf("the published message changed: %s -> %s", before, msgState(msg)))
 				}
 				var ids []string
@@ -402,7 +413,7 @@ func TestC19(t *testing.T) {
 				if len(ids) != workers*per {
 					findings = append(findings, fmt.Sprintf("%d deliveries for %d publications", len(ids), workers*per))
 				}
-				if auto {
+				if auto && !rejected {
 					for k, id := range ids {
 						if id != strconv.Itoa(k) {
 							findings = append(findings, fmt.Sprintf("delivered IDs %v are not 0,1,2,...", ids))
